@@ -214,6 +214,243 @@ fn ramp_histories(out: &mut Out, rng: &mut Rng, n: u64) {
     }
 }
 
+
+// ---------------------------------------------------------------------------------------------
+// curve functions through the hook
+// ---------------------------------------------------------------------------------------------
+use crate::big::{self, b, B};
+use cosmwasm_std::{Uint128, Uint256};
+
+pub type Ramp5 = (u64, u64, u64, u64, u64);
+fn inv(t: Ramp5) -> trioh::StableSwap { trioh::StableSwap::new(t.0, t.1, t.2, t.3, t.4) }
+fn ramp_term(t: Ramp5) -> String { format!("({}, {}, {}, {}, {})", t.0, t.1, t.2, t.3, t.4) }
+fn ramp_json(t: Ramp5) -> serde_json::Value { json!({"initial_amp": t.0, "target_amp": t.1, "height": t.2, "start": t.3, "stop": t.4}) }
+fn u(x: u128) -> Uint128 { Uint128::new(x) }
+
+pub fn impl_d(t: Ramp5, a: u128, b_: u128, c: u128) -> Outcome<Uint256> {
+    run_catch(|| inv(t).compute_d(u(a), u(b_), u(c)).ok_or(()), |_| E_NONE)
+}
+pub struct Res3 { pub ns: u128, pub nd: u128, pub dy: u128 }
+pub fn impl_swap_to(t: Ramp5, x: u128, src: u128, dst: u128, uns: u128) -> Outcome<Res3> {
+    run_catch(|| inv(t).swap_to(u(x), u(src), u(dst), u(uns))
+        .map(|r| Res3 { ns: r.new_source_amount.u128(), nd: r.new_destination_amount.u128(), dy: r.amount_swapped.u128() }).ok_or(()), |_| E_NONE)
+}
+pub fn impl_rsim(t: Ramp5, ask: u128, src: u128, dst: u128, uns: u128) -> Outcome<u128> {
+    run_catch(|| inv(t).reverse_sim(u(ask), u(src), u(dst), u(uns)).map(|r| r.u128()).ok_or(()), |_| E_NONE)
+}
+pub fn impl_mint(t: Ramp5, d: [u128; 3], r: [u128; 3], s: u128) -> Outcome<u128> {
+    run_catch(|| inv(t).compute_mint_amount_for_deposit(u(d[0]), u(d[1]), u(d[2]), u(r[0]), u(r[1]), u(r[2]), u(s)).map(|r| r.u128()).ok_or(()), |_| E_NONE)
+}
+pub struct Swap5 { pub ret: u128, pub spread: u128, pub sf: u128, pub pf: u128, pub bf: u128 }
+pub fn impl_cswap(t: Ramp5, op: u128, ask: u128, uns: u128, x: u128, f: (u128, u128, u128)) -> Outcome<Swap5> {
+    run_catch(|| trioh::compute_swap(u(op), u(ask), u(uns), u(x), trio_fee(f.0, f.1, f.2), inv(t))
+        .map(|s| Swap5 { ret: s.return_amount.u128(), spread: s.spread_amount.u128(), sf: s.swap_fee_amount.u128(),
+                         pf: s.protocol_fee_amount.u128(), bf: s.burn_fee_amount.u128() }), |_| E_OTHER)
+}
+
+fn big256(x: &Uint256) -> B { big::bs(&x.to_string()) }
+
+/// effective amp for monitor arithmetic (only called on started ramps)
+fn amp_of(t: Ramp5) -> Option<u64> { if t.2 >= t.3 { Some(amp_expected(t.0, t.1, t.2, t.3, t.4)) } else { None } }
+
+fn gen_amp_state(rng: &mut Rng) -> Ramp5 {
+    match rng.below(20) {
+        0 => (u64_value(rng), u64_value(rng), u64_value(rng), u64_value(rng), u64_value(rng)),
+        1..=5 => {
+            let h0 = 12_345 + rng.below(1_000_000);
+            let len = 10_000 + rng.below(1_000_000);
+            let a0 = 1 + rng.below(1_000_000);
+            let a1 = match rng.below(3) { 0 => (a0 * 10).min(1_000_000), 1 => (a0 / 10).max(1), _ => 1 + rng.below(1_000_000) };
+            (a0, a1, h0 + rng.below(len + 10), h0, h0 + len)
+        }
+        _ => {
+            let a = *rng.pick(&[1u64, 1, 2, 10, 85, 100, 1000, 1000, 5000, 1_000_000, 1_000_000]);
+            let a = if rng.chance(1, 5) { 1 + rng.below(1_000_000) } else { a };
+            (a, a, 12_345 + rng.below(1000), 12_345, 12_345)
+        }
+    }
+}
+
+/// reserve triples: balanced around a magnitude (the realistic region, where the computation succeeds), skewed, tiny, arbitrary
+fn gen_reserves(rng: &mut Rng) -> [u128; 3] {
+    let mags: [u128; 10] = [1_000, 1_000_000, 1_000_000_000, 1_000_000_000_000, DEC, 1u128 << 64, 1u128 << 80, 1u128 << 96, 1u128 << 100, 1u128 << 110];
+    let m = *rng.pick(&mags);
+    let around = |rng: &mut Rng, m: u128, spread: u128| -> u128 {
+        // m * k / 1000 with k in [1000/spread, 1000*spread]
+        let lo = (1000 / spread).max(1);
+        let k = rng.range128(lo, 1000 * spread);
+        (m / 1000).max(1).saturating_mul(k).max(1).min((1u128 << 110) + 5)
+    };
+    match rng.below(12) {
+        0..=4 => [around(rng, m, 2), around(rng, m, 2), around(rng, m, 2)],
+        5..=6 => [around(rng, m, 20), around(rng, m, 20), around(rng, m, 20)],
+        7 => [around(rng, m, 1000), around(rng, m, 1000), around(rng, m, 1000)],
+        8 => [m, m, m],
+        9 => [1 + rng.below(10) as u128, 1 + rng.below(10) as u128, 1 + rng.below(10) as u128],
+        10 => [magnitude(rng, 111), magnitude(rng, 111), magnitude(rng, 111)],
+        _ => { let mut v = [around(rng, m, 2), around(rng, m, 2), around(rng, m, 2)]; v[rng.below(3) as usize] = rng.below(2) as u128; v }
+    }
+}
+
+fn gen_offer(rng: &mut Rng, src: u128) -> u128 {
+    match rng.below(12) {
+        0 => 0, 1 => 1, 2 => src, 3 => src.saturating_mul(2), 4 => src / 2, 5 => src / 1000, 6 => src / 1_000_000 + 1,
+        7 => magnitude(rng, 111), 8 => 1 + rng.below(1000) as u128, _ => rng.range128(1, src.max(2) / 3 + 1),
+    }
+}
+
+/// (offer, ask, unswapped) indices: all six directions
+pub const DIRS: [(usize, usize, usize); 6] = [(0, 1, 2), (0, 2, 1), (1, 0, 2), (1, 2, 0), (2, 0, 1), (2, 1, 0)];
+
+fn curve_pure(out: &mut Out, rng: &mut Rng, n: u64) {
+    // corpus
+    let flat = |a: u64| -> Ramp5 { (a, a, 12_345, 12_345, 12_345) };
+    let mut cases: Vec<(Ramp5, [u128; 3], usize, u128)> = vec![
+        (flat(1000), [1_000_000, 1_000_000, 1_000_000], 0, 1000),
+        (flat(1), [1u128 << 110, 1u128 << 110, 1u128 << 110], 3, 1u128 << 100),
+        (flat(1_000_000), [1u128 << 110, 1u128 << 110, 1u128 << 110], 5, 1u128 << 109),
+        (flat(85), [0, 0, 0], 0, 5), (flat(85), [0, 0, 0], 0, 0), (flat(85), [5, 0, 7], 1, 5),
+        ((100, 1000, 20_000, 12_345, 30_000), [123_456_789_012, 98_765_432_109, 111_111_111_111], 4, 7_777_777),
+        ((7, 9, 3, 5, 10), [1000, 1000, 1000], 0, 10),
+    ];
+    for _ in 0..n {
+        let t = gen_amp_state(rng);
+        let r = gen_reserves(rng);
+        let dir = rng.below(6) as usize;
+        let x = gen_offer(rng, r[DIRS[dir].0]);
+        cases.push((t, r, dir, x));
+    }
+    for (t, r, dir, x) in cases {
+        let (io, ia, iu) = DIRS[dir];
+        let (src, dst, uns) = (r[io], r[ia], r[iu]);
+        let replay = json!({"kind": "pure_curve", "amp_state": ramp_json(t), "reserves": [r[0].to_string(), r[1].to_string(), r[2].to_string()],
+                            "offer_index": io, "ask_index": ia, "offer": x.to_string()});
+        // compute_d
+        let d = impl_d(t, r[0], r[1], r[2]);
+        out.count(match &d { Outcome::Ok(_) => "d:ok", Outcome::Err(_) => "d:none", Outcome::Panic(_) => "d:panic" });
+        out.case("c04_d", &format!("({}, ({}, {}, {}))", ramp_term(t), r[0], r[1], r[2]), &obs(&d, |v| vec![v.to_string()]), replay.clone());
+        // swap_to
+        let s = impl_swap_to(t, x, src, dst, uns);
+        out.count(match &s { Outcome::Ok(_) => "swap:ok", Outcome::Err(_) => "swap:none", Outcome::Panic(_) => "swap:panic" });
+        out.case("c04_swap", &format!("({}, ({}, {}, {}, {}))", ramp_term(t), x, src, dst, uns),
+                 &obs(&s, |v| vec![v.ns.to_string(), v.nd.to_string(), v.dy.to_string()]), replay.clone());
+        out.count(&format!("reserve_bits:{}", (128 - src.leading_zeros()) / 16 * 16));
+        // NB compute_d is not symmetric in its arguments (three successive truncating divisions): swap_to uses (source, destination, unswapped)
+        if let (Outcome::Ok(sr), Outcome::Ok(dv), Some(amp)) = (&s, &impl_d(t, src, dst, uns), amp_of(t)) {
+            monitor_swap(out, t, amp, (src, dst, uns), x, sr, dv, &replay);
+            if sr.dy > 0 { out.nontrivial_key(hash64(&[t.0 as u128, t.1 as u128, t.2 as u128, src, dst, uns, x])); }
+        }
+        out.sample(replay.clone());
+        // helpers::compute_swap with fees
+        if rng.chance(1, 2) {
+            let f = fee_triple(rng, true);
+            let cs = impl_cswap(t, src, dst, uns, x, f);
+            let mut rp = replay.clone();
+            rp["fees_protocol_swap_burn"] = json!([f.0.to_string(), f.1.to_string(), f.2.to_string()]);
+            out.count(match &cs { Outcome::Ok(_) => "cswap:ok", Outcome::Err(_) => "cswap:err", Outcome::Panic(_) => "cswap:panic" });
+            out.monitor_evals += 1;
+            match (&cs, &s) {
+                (Outcome::Ok(c), Outcome::Ok(sr)) => {
+                    if b(c.ret) + b(c.sf) + b(c.pf) + b(c.bf) != b(sr.dy) { out.monitor_fail("C04", "proceeds + fees != curve output", rp.clone()); }
+                    let fl = |share: u128| b(sr.dy) * b(share) / b(DEC);
+                    if b(c.sf) != fl(f.1) || b(c.pf) != fl(f.0) || b(c.bf) != fl(f.2) { out.monitor_fail("C04", "a fee differs from floor(share * curve output)", rp.clone()); }
+                    if c.ret >= dst { out.monitor_fail("C04", "proceeds not below the ask reserve", rp.clone()); }
+                }
+                (Outcome::Ok(_), _) => out.monitor_fail("C04", "compute_swap succeeded although swap_to did not", rp.clone()),
+                (Outcome::Err(_), Outcome::Ok(_)) | (Outcome::Panic(_), Outcome::Ok(_)) => out.monitor_fail("C04", "compute_swap failed although swap_to succeeded and fees are valid", rp.clone()),
+                _ => {}
+            }
+            out.case("c04_cswap", &format!("({}, ({}, {}, {}, {}), ({}, {}, {}))", ramp_term(t), src, dst, uns, x, f.0, f.1, f.2),
+                     &obs(&cs, |v| vec![v.ret.to_string(), v.spread.to_string(), v.sf.to_string(), v.pf.to_string(), v.bf.to_string()]), rp);
+        }
+        // reverse_sim (a quarter of the cases)
+        if rng.chance(1, 4) {
+            let ask = match rng.below(4) { 0 => dst, 1 => dst.saturating_add(1), 2 => 0, _ => rng.range128(0, dst / 2 + 1) };
+            let rs = impl_rsim(t, ask, src, dst, uns);
+            out.count(match &rs { Outcome::Ok(_) => "rsim:ok", Outcome::Err(_) => "rsim:none", Outcome::Panic(_) => "rsim:panic" });
+            out.case("c04_rsim", &format!("({}, ({}, {}, {}, {}))", ramp_term(t), ask, src, dst, uns), &obs(&rs, |v| vec![v.to_string()]), replay.clone());
+        }
+        // deposit
+        if rng.chance(1, 2) {
+            let dep = match rng.below(5) {
+                0 => [r[0] / 10 + 1, r[1] / 10 + 1, r[2] / 10 + 1],
+                1 => [1, 1, 1],
+                2 => [gen_offer(rng, r[0]), gen_offer(rng, r[1]), gen_offer(rng, r[2])],
+                3 => { let mut v = [1u128, 1, 1]; v[rng.below(3) as usize] = gen_offer(rng, r[0]).max(1); v }
+                _ => [rng.range128(1, r[0].max(2)), rng.range128(1, r[1].max(2)), rng.range128(1, r[2].max(2))],
+            };
+            let supply = match rng.below(4) { 0 => 1, 1 => magnitude(rng, 120), _ => { let s = r[0].saturating_add(r[1]).saturating_add(r[2]); rng.range128(s / 2 + 1, s.max(2)) } };
+            let m = impl_mint(t, dep, r, supply);
+            let mut rp = replay.clone();
+            rp["deposit"] = json!([dep[0].to_string(), dep[1].to_string(), dep[2].to_string()]);
+            rp["lp_supply"] = json!(supply.to_string());
+            out.count(match &m { Outcome::Ok(_) => "mint:ok", Outcome::Err(_) => "mint:none", Outcome::Panic(_) => "mint:panic" });
+            if let (Outcome::Ok(mv), Some(amp)) = (&m, amp_of(t)) { monitor_mint(out, t, amp, r, dep, supply, *mv, &rp); }
+            out.case("c04_mint", &format!("({}, ({}, {}, {}), ({}, {}, {}), {})", ramp_term(t), dep[0], dep[1], dep[2], r[0], r[1], r[2], supply),
+                     &obs(&m, |v| vec![v.to_string()]), rp);
+        }
+    }
+}
+
+fn dust_log(out: &mut Out, kind: &str, loss: &str, amp: u64, before: [u128; 3], after: [u128; 3]) {
+    use std::io::Write;
+    let mut f = std::fs::OpenOptions::new().create(true).append(true).open(format!("{}/dust.csv", out.dir)).unwrap();
+    writeln!(f, "{},{},{},{},{},{},{},{},{}", kind, loss, amp, before[0], before[1], before[2], after[0], after[1], after[2]).unwrap();
+}
+
+/// property predicates on one successful swap_to of the implementation
+fn monitor_swap(out: &mut Out, t: Ramp5, amp: u64, (src, dst, uns): (u128, u128, u128), x: u128, sr: &Res3, d: &Uint256, replay: &serde_json::Value) {
+    out.monitor_evals += 1;
+    if b(sr.ns) != b(src) + b(x) || b(sr.nd) + b(sr.dy) != b(dst) { out.monitor_fail("C04", "swap result does not balance (new reserves vs amount swapped)", replay.clone()); }
+    if sr.dy >= dst { out.monitor_fail("C04", "curve output not below the ask reserve", replay.clone()); }
+    // the code's quadratic, recomputed with wide integers: the reserve kept (y + 1) lies strictly beyond its root
+    let ann = b(amp as u128 * 3);
+    let dd = big256(d);
+    if sr.ns > 0 && uns > 0 {
+        let c = dd * dd / (b(sr.ns) * b(3)) * dd / (b(uns) * b(3)) * dd / (ann * b(3));
+        let bb = dd / ann + b(sr.ns) + b(uns);
+        let y1 = b(sr.nd);
+        if !(y1 * y1 + bb * y1 > c + dd * y1) { out.monitor_fail("C04", "reserve kept after the swap is not beyond the root of the curve quadratic", replay.clone()); }
+    }
+    // VALIDATION (not proof) of the exact-curve clause: the true invariant, solved independently to one base unit, does not fall across the swap
+    if src > 0 && dst > 0 && uns > 0 && sr.nd > 0 {
+        out.monitor_evals += 1;
+        let before = big::d3_true_floor(amp as u128 * 3, [src, dst, uns]);
+        let after = big::d3_true_floor(amp as u128 * 3, [sr.ns, sr.nd, uns]);
+        out.count("validation:d_true_across_swap");
+        if after < before {
+            dust_log(out, "swap_d", &(before - after).to_string(), amp, [src, dst, uns], [sr.ns, sr.nd, uns]);
+            out.monitor_fail("C04", &format!("VALIDATION exact curve: true invariant fell across a swap ({} -> {})", before, after), replay.clone()); }
+    }
+    // there and straight back never yields a profit
+    if sr.dy > 0 {
+        out.monitor_evals += 1;
+        if let Outcome::Ok(back) = impl_swap_to(t, sr.dy, sr.nd, sr.ns, uns) {
+            out.count("roundtrip:evaluated");
+            if back.dy > x { dust_log(out, "roundtrip", &(back.dy - x).to_string(), amp, [src, dst, uns], [sr.ns, sr.nd, uns]); out.monitor_fail("C04", &format!("swap there-and-back returned {} for {} put in", back.dy, x), replay.clone()); }
+        }
+    }
+}
+
+fn monitor_mint(out: &mut Out, t: Ramp5, amp: u64, r: [u128; 3], dep: [u128; 3], supply: u128, mint: u128, replay: &serde_json::Value) {
+    out.monitor_evals += 1;
+    let n = [r[0] + dep[0], r[1] + dep[1], r[2] + dep[2]];
+    if let (Outcome::Ok(d0), Outcome::Ok(d1)) = (impl_d(t, r[0], r[1], r[2]), impl_d(t, n[0], n[1], n[2])) {
+        let (d0, d1) = (big256(&d0), big256(&d1));
+        if (b(supply) + b(mint)) * d0 > b(supply) * d1 { out.monitor_fail("C04", "deposit minted more LP than the increase of the pool's own invariant (D/S fell)", replay.clone()); }
+    }
+    if r.iter().all(|v| *v > 0) {
+        out.monitor_evals += 1;
+        out.count("validation:d_true_per_lp_deposit");
+        let f0 = big::d3_true_floor(amp as u128 * 3, r);
+        let f1 = big::d3_true_floor(amp as u128 * 3, n);
+        // D1/(S+m) >= D0/S for the true values implies (floor D1 + 1) S > floor D0 (S + m)
+        if !((f1 + B::ONE) * b(supply) > f0 * (b(supply) + b(mint))) {
+            out.monitor_fail("C04", "VALIDATION exact curve: true invariant per LP token fell across a deposit", replay.clone());
+        }
+    }
+}
+
 pub fn run(args: &Args) {
     let mut out = Out::new(&args.out);
     out.rule = "amp: non-trivial = height strictly inside a started ramp with start != target; ramp histories: non-trivial = an accepted ramp, \
@@ -221,5 +458,6 @@ pub fn run(args: &Args) {
     let mut rng = Rng::new(args.seed);
     amp_pure(&mut out, &mut rng, args.n);
     ramp_histories(&mut out, &mut rng, (args.n / 8).max(30));
+    curve_pure(&mut out, &mut rng, args.n);
     out.finish();
 }
